@@ -184,6 +184,10 @@ func vfH_dial_logic() {
 	if d2 == d1 {
 		d2 = 99 // the same dimension twice is the single-dimension case
 	}
+	if (d1 == 15 && d2 == 4) || (d1 == 4 && d2 == 15) {
+		d2 = 99 // the two-dial program scripts no proxy replies for its first dial
+	}
+	badScheme := ""
 	if d2 != 99 && d1 != 10 && d2 != 10 {
 		// two dimensions varied (neither of them the Accept value): the random key
 		// is a fixed one (every key is covered by the single-dimension tier)
@@ -207,13 +211,13 @@ func vfH_dial_logic() {
 		case 1: // scheme / userinfo
 			switch vfChoose(3) {
 			case 0:
-				in.scheme = "http"
+				badScheme = "http"
 				malformed = true
 			case 1:
-				in.scheme = vfString(2)
-				vfAssume(!vfStrEq(in.scheme, "ws"))
+				badScheme = vfString(2)
+				vfAssume(!vfStrEq(badScheme, "ws"))
 				for i := 0; i < 2; i++ {
-					vfAssume(vfAnd(in.scheme[i] >= 'a', in.scheme[i] <= 'z'))
+					vfAssume(vfAnd(badScheme[i] >= 'a', badScheme[i] <= 'z'))
 				}
 				malformed = true
 			case 2:
@@ -287,14 +291,18 @@ func vfH_dial_logic() {
 				in.ctx.deadline = time.Now().Add(time.Hour)
 			}
 		case 6: // benign caller headers
+			if callerHdr == nil {
+				callerHdr = http.Header{}
+			}
 			switch vfChoose(3) {
 			case 0:
-				callerHdr = http.Header{"Origin": {"https://example.com"}, "X-Trace": {vfString(2)}}
+				callerHdr["Origin"] = []string{"https://example.com"}
+				callerHdr["X-Trace"] = []string{vfString(2)}
 			case 1:
-				callerHdr = http.Header{"Host": {"virtual.example"}}
+				callerHdr["Host"] = []string{"virtual.example"}
 				in.hostOverride = "virtual.example"
 			case 2:
-				callerHdr = http.Header{"Sec-Websocket-Protocol": {"chat"}}
+				callerHdr["Sec-Websocket-Protocol"] = []string{"chat"}
 			}
 		case 7: // protocol-owned caller headers, in three spellings each
 			names := []string{"Upgrade", "Connection", "Sec-Websocket-Key", "Sec-Websocket-Version", "Sec-Websocket-Extensions"}
@@ -302,7 +310,10 @@ func vfH_dial_logic() {
 			lower := []string{"upgrade", "connection", "sec-websocket-key", "sec-websocket-version", "sec-websocket-extensions"}
 			i := vfChoose(len(names))
 			k := [][]string{names, rfc, lower}[vfChoose(3)][i]
-			callerHdr = http.Header{k: {"x" + vfString(1)}}
+			if callerHdr == nil {
+				callerHdr = http.Header{}
+			}
+			callerHdr[k] = []string{"x" + vfString(1)}
 			forbidden = true
 		case 8: // reply status
 			in.status, in.code = vfStatusLine()
@@ -366,6 +377,13 @@ func vfH_dial_logic() {
 				in.certName = "first.example"
 			}
 		}
+	}
+	if _, both := callerHdr["Sec-Websocket-Protocol"]; both && len(in.d.Subprotocols) > 0 {
+		// with Dialer.Subprotocols set the header is owned by the library: a caller value is refused
+		forbidden = true
+	}
+	if badScheme != "" {
+		in.scheme = badScheme // whatever another dimension chose for the scheme
 	}
 	// URL string and what a URL parser makes of it
 	in.urlStr = in.scheme + "://"
@@ -689,7 +707,8 @@ func vfH_dial_logic() {
 			nconnect++
 		}
 	}
-	faulted := in.dialFail || vfReqWriteFail > 0 || tc.wfailed || !tlsOK
+	// (a failing dial hook only matters when a hook is what dials)
+	faulted := (in.dialFail && len(dials) > 0) || vfReqWriteFail > 0 || tc.wfailed || !tlsOK
 	if nativeTLS && c == nil {
 		// native replay: the real TLS peer saw plaintext where a ClientHello was due
 		if tc.pipe != nil {
